@@ -220,6 +220,12 @@ func (rw *Rewriter) Visit(node sql.Node) (w sql.Visitor, n sql.Node, err error) 
 					break
 				}
 				n, err := strconv.Atoi(lit.Value)
+				if len(lit.Value) > 2 && (lit.Value[:2] == "0x" || lit.Value[:2] == "0X") {
+					// SQLite integer literals may be hexadecimal.
+					var n64 int64
+					n64, err = strconv.ParseInt(lit.Value[2:], 16, 32)
+					n = int(n64)
+				}
 				if err != nil {
 					break
 				}
